@@ -25,26 +25,45 @@ RULE = ("(order) dependency graphs of 1-7 repositories over ids 0-9, random edge
         "repository (2-11 commits, 1-3 branches, forks/merges, build tags at random commits, unbuilt heads, pins "
         "that never decrease along a path and name existing component builds; a minority with decreasing / unknown / "
         "missing pins or with matching commits of its own, which are outside the oracle's domain or the model's) run "
-        "through ReposCollection.make_reports_data on harness-side mock git objects.  Non-trivial = a cycle or >= 2 "
-        "repositories with a dependency (order); at least one included_at registration (bump).")
+        "through ReposCollection.make_reports_data on harness-side mock git objects.  Version numbers take boundary "
+        "values: release series drawn from 1.1 (most), 0.9, 0.0, 0.1, 1.0, 10.240, 9.9 -> 9.10 / 10.0, 0.99 -> 0.100, the "
+        "parent's own series; build numbers = commit id + offset in {0, -1 (first build is 0), 95 (99 -> 100), 4150}; a "
+        "second component series that restarts its numbers (1.1.3 and 1.2.3 both exist); two build numbers on one "
+        "commit (either tag order), the same number in two series on one commit; in ~40 % of the cases some tags are "
+        "exotic: leading zeros, a project specific tag format handled by an overridden parse_buildtag, a tag text that "
+        "names no release series (incl. near misses release_1, release_1_1_x, pre_release_1_2) whose major.minor come "
+        "from a version file saved in the commit, or '?'.'?'.n when that file is missing / unreadable; saved version "
+        "files that nothing should read.  Non-trivial = a cycle or >= 2 repositories with a dependency (order); at "
+        "least one included_at registration (bump).")
 TRUSTED_BASE = [
-    "harness-side mock git objects (commit / tree / blob / refs) stand in for GitPython; build numbers come from tags "
-    "build_<n>_release_<M>_<m>_success, pins from a JSON DEPENDS file",
+    "harness-side mock git objects (commit / tree / blob / refs) stand in for GitPython; the harness renders the tags "
+    "(build_<n>_release_<M>_<m>_success, with leading zeros, build_<n>_<word>_success, ok-<M>.<m>-<n>) and tells the model "
+    "which route of finalize_build_tag_info each takes (tag_name / tag_version / c_rawtag in c07.py; the two regular "
+    "expressions are re-read from the source, fail closed); pins come from a JSON DEPENDS file, saved versions from a "
+    "VERSION file read by harness-side _read_saved_build_num_from_file / parse_buildtag overrides (the documented "
+    "extension points)",
     "the component's finished RGraph (RBuild iids renumbered order-preservingly, parent_rbuilds, bn_map, RBranch "
     "membership) is read from the implementation's own run and handed to the model as input: the construction of a "
-    "single repository's RGraph is property C06's subject; the oracle does not use it (it works from the raw histories)",
+    "single repository's RGraph is property C06's subject; the oracle does not use it (it works from the raw histories); "
+    "the component's tag -> build number step IS compared with the model (get_builds_numbers of every commit)",
     "gen/C07_Consts.v: the clauses of ComponentBump.get_rbuilds_in_bump / is_trivial / the is_rbuild disjunction / the "
-    "cycle test are recognised in ak/ghist.py by harness/props/c07.py:gen_consts (ast, fail-closed)",
+    "cycle test / the route tests of finalize_build_tag_info / guess_major_minor_build_by_tag_substr's returns / the "
+    "'?' fallback of get_saved_build_number are recognised in ak/ghist.py by harness/props/c07.py:gen_consts (ast, fail-closed)",
 ]
 ASSUMPTIONS = [
     "commit times lie within the 30-day / 1-day cut-off windows (all mock commits are seconds apart)",
     "one parent repository pinning one component in the bump model (dependency graphs of any shape in the order model)",
-    "build numbers have patch == build (tag and pin formats used by the generators)",
+    "build numbers have patch == build (tag and pin formats used by the generators); builds are detected by tags "
+    "(RepoBuildsByTagDetector, the default), not by RepoBuildsBySavedBuildNumDetector",
+    "a version component is a non-negative integer or the string '?' (encoded -1 / [qm]); no real build is numbered "
+    "8888.8888.8888 or 9999.9999.9999 (the code's fake builds)",
 ]
 MODELLED = ("ak/ghist.py ReposCollection.__init__ ordering DFS and make_reports_data order; ComponentBump; RGraph.__init__, "
             "_read_branch, _mk_rcommits, _find_new_rcommits_in_build, _mk_bumps_info, pending bumps of the 'not merged' "
-            "pseudo build and included_at registration for the parent repository; NOT modelled: BranchName sorting, tag "
-            "parsing, the obsolete-branch / component cut-off times, report formatting, the component's own RGraph")
+            "pseudo build and included_at registration for the parent repository; RepoBuildsByTagDetector."
+            "finalize_build_tag_info / get_builds_numbers (three routes from a tag to major.minor, incl. the '?' fallback) "
+            "and BuildNumData.cmp (integers below '?'); NOT modelled: BranchName sorting, the regular expressions of the "
+            "tag formats, the obsolete-branch / component cut-off times, report formatting, the component's own RGraph")
 
 
 class ExtractError(Exception):
@@ -1115,7 +1134,10 @@ LEVEL_TEXT = ("Partial. FULL (unbounded, Coq): repo_order, repo_order_supply, re
               "(the ordering loop is modelled as the same stack machine; invariant + potential function; for every dependency "
               "table and every duplicate-free supply list); bump_set (get_rbuilds_in_bump is duplicate free, always contains "
               "anc*(to) minus anc*(from), and equals it IFF the from-builds separate the graph), bump_set_linear_history, "
-              "included_never_missing (every history), bump_from, bump_reported, consts_ok (clauses re-read from the source). "
+              "included_never_missing (every history), bump_from, bump_reported, consts_ok + tag_routes_ok (clauses re-read from "
+              "the source), tag_build_number / release_tag_pin (a release tag is build M.m.n for every M, m, n - 0 included - "
+              "and is found by exactly the pin M.m.n), builds_numbers_complete, build_number_order (BuildNumData.cmp is "
+              "lexicographic on numbers, numbers below '?', total). "
               "REFUTED for the current code (known, open findings): bump_set_statement and included_first_statement "
               "(bump_set_refuted, included_first_refuted, witness of DESIGN.md section 7 run through the whole model). "
               "PARTIAL: included_first_partial - one parent branch whose reported builds form a chain over a linear component "
